@@ -102,8 +102,7 @@ class Harness:
 
     # ------------------------------------------------------------------
     def _world_intercept(self, label):
-        for h in self.intercept_hooks:
-            h(self, label)
+        self._run_hooks(self.intercept_hooks, label)
 
     def _queue_hook(self, label):
         if label == 'message_queue':
@@ -142,8 +141,7 @@ class Harness:
     db_fault = None
 
     def _on_publish(self, schd, item):
-        for h in self.publish_hooks:
-            h(self, item)
+        self._run_hooks(self.publish_hooks, item)
 
     def _make_scheduler(self):
         from cylc.flow.scheduler import Scheduler
@@ -162,6 +160,18 @@ class Harness:
         self._wrap_instance(schd)
         return schd
 
+    def _run_hooks(self, hooks, *args):
+        import traceback
+        for hook in hooks:
+            try:
+                hook(self, *args)
+            except (HarnessError, SimCrash):
+                raise
+            except Exception as exc:
+                raise HarnessError(
+                    'harness hook failed: ' + traceback.format_exc()[-1500:]
+                ) from exc
+
     def _wrap_instance(self, schd):
         h = self
         orig_init = schd.initialise
@@ -178,11 +188,9 @@ class Harness:
             h.total_iterations += 1
             if h.iterations > h.max_iter:
                 raise HarnessError('iteration cap hit')
-            for hook in h.pre_iter_hooks:
-                hook(h)
+            h._run_hooks(h.pre_iter_hooks)
             await orig_loop()
-            for hook in h.iter_hooks:
-                hook(h)
+            h._run_hooks(h.iter_hooks)
             if h.stall_gap:
                 gap = h.stall_gap(h)
                 if gap:
@@ -209,8 +217,7 @@ class Harness:
             await schd.install()
             await schd.start()
             self.world.scheduler_up(schd)
-            for hook in self.start_hooks:
-                hook(self)
+            self._run_hooks(self.start_hooks)
             await schd.run_scheduler()
 
         try:
